@@ -127,6 +127,23 @@ Definition judge_ndt (sign : Z) (op_form : bool) (args : list val) (out : val) :
   | _ => JSkip
   end.
 
+(* a date-time plus / minus a core::time::Duration (secs : u64, nanos < 10^9): the same rule with the
+   duration as a count of nanoseconds; a duration beyond the largest TimeDelta cannot be converted
+   and the operator panics (documented for the operator forms) *)
+Definition judge_ndt_std (sign : Z) (args : list val) (out : val) : verdict :=
+  match args with
+  | [VTup [VInt y; VInt o; VInt s; VInt f]; VInt ds; VInt dn] =>
+      if in_u64 ds && (0 <=? dn) && (dn <? TG) then
+        if year_in_range y && valid_yo y o && state_ok s f then
+          let d := ds * TG + dn in
+          if d <=? DMAX then
+            judge_eq (match exp_ndt sign y o s f d with Some v => v | None => VPanic end) out
+          else judge_eq VPanic out
+        else JSkip
+      else JSkip
+  | _ => JSkip
+  end.
+
 (* the same accessors and replacements asked of a naive date-time: they concern its time of day, the
    date is carried along unchanged (the date itself is not examined here) *)
 Definition with_date (y o : Z) (v : val) : val :=
@@ -151,6 +168,10 @@ Definition judge (op : bytes) (args : list val) (out : val) : verdict :=
   else if op_is op "ndt.sub" then judge_ndt (-1) false args out
   else if op_is op "ndt.opadd" then judge_ndt 1 true args out
   else if op_is op "ndt.opsub" then judge_ndt (-1) true args out
+  else if op_is op "ndt.addstd" then judge_ndt_std 1 args out
+  else if op_is op "ndt.substd" then judge_ndt_std (-1) args out
+  else if op_is op "ndt.addstd_assign" then judge_ndt_std 1 args out
+  else if op_is op "ndt.substd_assign" then judge_ndt_std (-1) args out
   else if op_is op "t.hms" then
     match args with
     | [a; b; c] => match u32 a, u32 b, u32 c with
